@@ -153,7 +153,7 @@ func checkColorRecord(rc recCase, payloads []string, pan string) (clause, detail
 		}
 		return false
 	}
-	wantTime := fixedTime.Format(slog.VerifDefaultLayout()) + "| "
+	wantTime := fixedTime.Format(refDefaultLayout()) + "| "
 	if !eat(wantTime) {
 		return "layout/timestamp", fmt.Sprintf("record does not start with %q: %.120q", wantTime, head)
 	}
